@@ -4,7 +4,7 @@
 
   Reading of the statement.  The code under test is `rtosc_count_printed_arg_vals` (model
   `C11.countPrintedArgVals`), `rtosc_scan_arg_vals` (`C11.scanArgVals`) — the model of C10 with
-  the repairs fixes/C11-01 … C11-05 and float ranges, `Pretty/C11Model.lean` — and
+  the repairs fixes/C11-01 … C11-06 and float ranges, `Pretty/C11Model.lean` — and
   `rtosc_print_arg_vals` with the default options (C10's `printArgVals defaultOpt`).
   The sentences of the grammar of doc/Guide.adoc, "Pretty-printing Messages", are the values of
   `Sentence` (`Pretty/C11Spec.lean`): lists of (value, spelling) choices; `render s L` is the text
